@@ -32,10 +32,10 @@ def restrict_rules(chk, P, E):
             chk.inst("R-OBLIG", f, "own-flag:" + callee, bool(mine) and not others, "%s runs exactly when %s is unset (other flag tests on its path: %s)" % (callee, fl, others), loc=f.loc(c))
     chk.rule("R-SETKIND", "cpusets and nodesets are never mixed in bitmap operations or argument passing")
     ns = setkind.run(chk, P, ["topology.c", "cpukinds.c", "distances.c", "memattrs.c"])
-    chk.floor("R-SETKIND", "kinded bitmap operations", ns, 120)
+    chk.floor("R-SETKIND", "kinded bitmap operations", ns, 90)
     chk.rule("R-LISTKIND", "the four child lists are never confused: a block guarded by one list head works on that list")
     nl = setkind.listkind(chk, P, ["topology.c"])
-    chk.floor("R-LISTKIND", "list-head guarded blocks", nl, 12)
+    chk.floor("R-LISTKIND", "list-head guarded blocks", nl, 9)
     chk.rule("R-GUARD", "a NUMA node disappears only with REMOVE_CPULESS (a PU only with REMOVE_MEMLESS); I/O and Misc children dropped only without their ADAPT flag")
     for fn, typ, flag in (("restrict_object_by_cpuset", "HWLOC_OBJ_NUMANODE", "HWLOC_RESTRICT_FLAG_REMOVE_CPULESS"), ("restrict_object_by_nodeset", "HWLOC_OBJ_PU", "HWLOC_RESTRICT_FLAG_REMOVE_MEMLESS")):
         g = P.need_func(fn, "topology.c")
